@@ -91,7 +91,7 @@ def obligations(tier, ctx):
     ENV_SIZES = (4096, 8192, 65536, 131072)
     nsz = len(consts.size_cases(70000, extra=ENV_SIZES))
     for form in range(4):
-        for pat in ((5,) if tier == "quick" else (0, 2, 4, 5)):
+        for pat in (((6, 7, 8) if form == 3 else (6,)) if tier == "quick" else (0, 2, 4, 5, 6, 7, 8)):
             obs.append(Ob(name=f"big_f{form}_p{pat}", params=[("k", "int"), ("idsel", "int"), ("typed", "bool")], pre=[f"0 <= k < {nsz}", "0 <= idsel <= 2"] + (["idsel == 1", "typed"] if tier == "quick" else []),
                           call=f"H.post_big(k, {pat}, {form}, idsel, typed)", backend="P", timeout=900,
                           family="(d) size: answers carrying a string of c-1, c, c+1 characters (c: integer constants of the source and environment sizes)"))
